@@ -214,6 +214,13 @@ func (pubKey PublicKey) GetHandler() (PublicKeyHandler, error) {
 		return PublicKeyETHSECP{key: pkey}, nil
 
 	case BTCECSECP:
+		// one spelling per key, the compressed one: the key bytes of a signature entry are not
+		// covered by the signature, and the uncompressed and hybrid spellings of the same key give
+		// the same address and verify the same signatures, so a signed transaction could be
+		// submitted again under another hash
+		if len(pubKey.Data) != btcec.PubKeyBytesLenCompressed {
+			return nil, fmt.Errorf("given key doesn't match the size of the key algorithm %s length %d", pubKey.KeyType.String(), len(pubKey.Data))
+		}
 		k, err := btcec.ParsePubKey(pubKey.Data, btcec.S256())
 		if err != nil {
 			return nil, err
